@@ -25,10 +25,17 @@ def oracle(ck, scenarios, recs, what='CSS designates'):
             except selspec.NotJudged:
                 ck.notes['not_judged'] = ck.notes.get('not_judged', 0) + 1
                 continue
+            if (id(sc), pattern) in getattr(ck, 'hung', ()):
+                continue                   # already reported: this call does not return
             with warnings.catch_warnings():
                 warnings.simplefilter('ignore')
                 try:
-                    got = c.select(sc.top)
+                    st_, got = lib.call_with_timeout(lambda: c.select(sc.top), 30)
+                    if st_ == 'timeout':
+                        ck.violation(f'select({pattern!r}) did not return within 30 s', {'pattern': pattern, 'namespaces': ns, 'markup': matchcheck.markup_of(sc)})
+                        continue
+                    if st_ == 'raise':
+                        raise got
                 except Exception as ex:
                     ck.violation(f'select({pattern!r}) raised {type(ex).__name__}', {'pattern': pattern, 'markup': matchcheck.markup_of(sc)})
                     continue
@@ -43,6 +50,80 @@ def oracle(ck, scenarios, recs, what='CSS designates'):
                 ck.sample({'pattern': pattern, 'tree': sc.label, 'selected': matchcheck.paths_of(sc, got)})
 
 
+def deep_documents(ck, tier):
+    """Very deep (and very wide) documents built through the bs4 API: the answers are known in closed form."""
+    import warnings
+    import bs4
+    import soupsieve as sv
+    for depth in ((1200, 2500) if tier == 'quick' else (1200, 2500, 6000)):
+        soup = bs4.BeautifulSoup('', 'html.parser')
+        cur = soup
+        chain = []
+        for k in range(depth):
+            t = soup.new_tag('div' if k % 2 == 0 else 'section')
+            cur.append(t)
+            chain.append(t)
+            cur = t
+        leaf = soup.new_tag('p', id='leaf')
+        cur.append(leaf)
+        cur.append(bs4.NavigableString('end'))
+        n_div, n_sec = (depth + 1) // 2, depth // 2
+        expect = [('p', [leaf]), ('div', chain[0::2]), ('section > div', chain[2::2]), ('div p', [leaf]), (':has(> p)', [chain[-1]]),
+                  ('div:has(p)', chain[0::2]), (':root', [chain[0]]), ('section:not(:has(#leaf))', []), ('*', chain + [leaf]),
+                  ('p:last-child, section:only-child', chain[1::2] + [leaf]), (':-soup-contains("end")', chain + []), ('div ~ p', [])]
+        for sel, want in expect:
+            for scope, lab in ((soup, 'document'), (chain[depth // 2], 'a middle element')):
+                below = {id(x) for x in scope.find_all(True)}
+                w = [x for x in want if id(x) in below]
+                if sel == ':root' and lab != 'document':
+                    w = []
+                try:
+                    with warnings.catch_warnings():
+                        warnings.simplefilter('ignore')
+                        got = sv.select(sel, scope)
+                    ok = [id(x) for x in got] == [id(x) for x in w]
+                    what = f'returns {len(got)} element(s), {len(w)} are designated'
+                except Exception as ex:
+                    ok, what = False, f'raised {type(ex).__name__}'
+                ck.count(('deep', depth, sel, lab))
+                if not ok:
+                    ck.violation(f'select({sel!r}) on {lab} of a document nested {depth} levels deep {what}',
+                                 {'pattern': sel, 'depth': depth, 'scope': lab,
+                                  'replay': f'chain of {depth} alternating div/section elements built with new_tag/append, a <p id=leaf> and the text "end" '
+                                            'in the innermost one'})
+        for sel, want in (('p', True), ('section p', True), ('div > p', depth % 2 == 1), (':has(p)', False)):
+            try:
+                got = sv.match(sel, leaf)
+                cl = sv.closest('div', leaf)
+                ok = got == want and cl is (chain[-1] if depth % 2 == 1 else chain[-2])
+                what = f'match gives {got}, closest("div") the wrong ancestor: {cl is not (chain[-1] if depth % 2 == 1 else chain[-2])}'
+            except Exception as ex:
+                ok, what = False, f'raised {type(ex).__name__}'
+            ck.count(('deep-match', depth, sel))
+            if not ok:
+                ck.violation(f'match({sel!r}) / closest on the innermost element of a document nested {depth} levels deep: {what}',
+                             {'pattern': sel, 'depth': depth})
+    # very wide: 20000 siblings
+    soup = bs4.BeautifulSoup('', 'html.parser')
+    ul = soup.new_tag('ul')
+    soup.append(ul)
+    items = []
+    for k in range(20000 if tier != 'quick' else 6000):
+        li = soup.new_tag('li')
+        ul.append(li)
+        items.append(li)
+    for sel, want in (('li', items), ('li + li', items[1:]), ('li:last-child', items[-1:]), ('li ~ li:first-child', []), ('ul:has(> li + li)', [ul])):
+        try:
+            got = sv.select(sel, soup)
+            ok = [id(x) for x in got] == [id(x) for x in want]
+            what = f'returns {len(got)} element(s), {len(want)} are designated'
+        except Exception as ex:
+            ok, what = False, f'raised {type(ex).__name__}'
+        ck.count(('wide', sel))
+        if not ok:
+            ck.violation(f'select({sel!r}) on a list of {len(items)} siblings {what}', {'pattern': sel, 'siblings': len(items)})
+
+
 def run(tier, seed):
     ck = Check(PID, tier, seed)
     ck.proof = lib.proof_step('props/C01.v', matchcheck.MATCH_CONE + ['FuelFacts.v', 'AttrPat.v', 'RunFacts.v', 'AttrFacts.v'])
@@ -53,6 +134,7 @@ def run(tier, seed):
     scs = campaign.build(ck.rnd, 'core', n, 8, depth=2, all_match=True, directed=3)
     scs += campaign.build(ck.rnd, 'core', n // 4, 4, depth=3, all_match=True)
     attrval.run(ck, ck.rnd, 300 if tier == 'quick' else 5000)
+    deep_documents(ck, tier)
     recs = matchcheck.run_corr(ck, scs)
     oracle(ck, scs, recs)
     return ck.finish(
